@@ -669,6 +669,8 @@ class FuncVC:
             if nme in skip:
                 continue
             ct = self.fi.ctype(nme)
+            if ct is not None and ct.ndim:
+                raise SpecError("memoryview %s is (re)assigned inside a loop: outside the subset" % nme)
             k = ctype_kind(ct)
             if k is None:
                 old = entry.env.get(nme)
@@ -773,6 +775,19 @@ class FuncVC:
         b.facts.append(lo <= kv)
         b.facts.append(kv < hi)
         b.facts.extend(inv_terms(b, kv))
+        # explicitly instantiated arithmetic lemmas (each proved separately as lemma.<name>)
+        for lname, subst in self.c.get("use", {}).get(key, []):
+            lem = self.c["lemmas"][lname]
+            benv = dict(b.env)
+            lenv = {}
+            for vn, srt in lem["vars"].items():
+                val = self.spec_tr(benv, entry_env=entry_env).ev(ast.parse(subst[vn], mode="eval").body)
+                lenv[vn] = vreal(to_real(val)) if srt == "R" else val
+            hyps = [self.spec_bool(h, lenv) for h in lem.get("hyp", [])]
+            claim = self.spec_bool(lem["claim"], lenv)
+            b.facts.append(z3.Implies(z3.And(*hyps), claim) if hyps else claim)
+            self.eng.hints_used.add("%s: %s  [%s]" % (lname, lem["claim"], ", ".join(
+                "%s:=%s" % kvp for kvp in sorted(subst.items()))))
         self.canaries.append(("canary.loop.%s" % key, list(b.facts), z3.BoolVal(False)))
         saved_events = self.events
         if is_par:
@@ -883,6 +898,13 @@ class FuncVC:
             req.append(self.spec_bool(r, st.env))
         st.facts.extend(req)
         self.cover = list(st.facts)
+        for lname, lem in sorted(self.c.get("lemmas", {}).items()):
+            lenv = {}
+            for vn, srt in lem["vars"].items():
+                lenv[vn] = V("real", fresh("lem_" + vn, REAL)) if srt == "R" else V("int", fresh("lem_" + vn, INT))
+            hyps = [self.spec_bool(h, lenv) for h in lem.get("hyp", [])]
+            self.oblige("lemma.%s" % lname, "ensures", hyps, self.spec_bool(lem["claim"], lenv),
+                        note="arithmetic lemma used as hint: " + lem["claim"])
         results = self.exec_block(self.fi.node.body, st)
         ens = self.c.get("ensures", {})
         ens_items = list(ens.items()) if isinstance(ens, dict) else list(ens)
@@ -978,6 +1000,7 @@ class Engine:
         self.fcodes = {rp: {fn: 100 + i for i, fn in enumerate(sorted(low.funcs))}
                        for rp, low in self.lows.items()}
         self.assumed = set()
+        self.hints_used = set()
         self.calls = set()
         self.loops_seen = []
         self.vcs = {}
